@@ -96,3 +96,49 @@ package font
 //@   ensures [agrees-with-view] result1 == GID(old(it.data.entries[it.pos]))
 //@   ensures [advance] it.pos == old(it.pos)+1
 //@   modifies it.pos
+//
+// ---------------------------------------------------------------------------------------------
+// Property C13: the glyph extents cache of a Face is transparent. rawExt*(font, coords, ppem, g) stand for what
+// glyphExtentsRaw computes from the face settings (assumption A-C13-raw: it is a function of exactly these).
+//@ opaque rawExtOK(ft *Font, coords []tables.Coord, xp uint16, yp uint16, g GID) bool
+//@ opaque rawExtX(ft *Font, coords []tables.Coord, xp uint16, yp uint16, g GID) float32
+//@ opaque rawExtY(ft *Font, coords []tables.Coord, xp uint16, yp uint16, g GID) float32
+//@ opaque rawExtW(ft *Font, coords []tables.Coord, xp uint16, yp uint16, g GID) float32
+//@ opaque rawExtH(ft *Font, coords []tables.Coord, xp uint16, yp uint16, g GID) float32
+//@ spec cacheOK(f *Face) bool = forall(k, 0, len(f.extentsCache), implies(f.extentsCache[k].valid,
+//@   | rawExtOK(f.Font, f.coords, f.xPpem, f.yPpem, GID(k)) &&
+//@   | f.extentsCache[k].extents.XBearing == rawExtX(f.Font, f.coords, f.xPpem, f.yPpem, GID(k)) && f.extentsCache[k].extents.YBearing == rawExtY(f.Font, f.coords, f.xPpem, f.yPpem, GID(k)) &&
+//@   | f.extentsCache[k].extents.Width == rawExtW(f.Font, f.coords, f.xPpem, f.yPpem, GID(k)) && f.extentsCache[k].extents.Height == rawExtH(f.Font, f.coords, f.xPpem, f.yPpem, GID(k))))
+//@ trusted Face.glyphExtentsRaw
+//@   ensures [ok] result1 == rawExtOK(f.Font, f.coords, f.xPpem, f.yPpem, glyph)
+//@   ensures [value] implies(result1, result0.XBearing == rawExtX(f.Font, f.coords, f.xPpem, f.yPpem, glyph) && result0.YBearing == rawExtY(f.Font, f.coords, f.xPpem, f.yPpem, glyph) && result0.Width == rawExtW(f.Font, f.coords, f.xPpem, f.yPpem, glyph) && result0.Height == rawExtH(f.Font, f.coords, f.xPpem, f.yPpem, glyph))
+//@   modifies nothing
+//
+//@ func extentsCache.reset C13
+//@   mode bv
+//@   ensures [all-invalid] forall(k, 0, len(ec), !ec[k].valid)
+//@   modifies ec[:]
+//@   loop 1 invariant [done] forall(k, 0, rangeindex+1, !ec[k].valid)
+//
+//@ func Face.SetPpem C13
+//@   mode bv
+//@   ensures [ppem] f.xPpem == x && f.yPpem == y
+//@   ensures [cache-invalidated] forall(k, 0, len(f.extentsCache), !f.extentsCache[k].valid)
+//@   ensures [cache-ok] cacheOK(f)
+//@   modifies f.xPpem; f.yPpem; f.extentsCache[:]
+//
+//@ func Face.SetCoords C13
+//@   mode bv
+//@   ensures [coords] sameslice(f.coords, coords)
+//@   ensures [cache-invalidated] forall(k, 0, len(f.extentsCache), !f.extentsCache[k].valid)
+//@   ensures [cache-ok] cacheOK(f)
+//@   modifies f.coords; f.extentsCache[:]
+//
+//@ func Face.GlyphExtents C13
+//@   mode bv
+//@   requires cacheOK(f)
+//@   requires len(f.extentsCache) <= 1<<32
+//@   ensures [transparent-ok] implies(int(glyph) < len(f.extentsCache) || true, result1 == rawExtOK(f.Font, f.coords, f.xPpem, f.yPpem, glyph))
+//@   ensures [transparent-value] implies(result1, result0.XBearing == rawExtX(f.Font, f.coords, f.xPpem, f.yPpem, glyph) && result0.YBearing == rawExtY(f.Font, f.coords, f.xPpem, f.yPpem, glyph) && result0.Width == rawExtW(f.Font, f.coords, f.xPpem, f.yPpem, glyph) && result0.Height == rawExtH(f.Font, f.coords, f.xPpem, f.yPpem, glyph))
+//@   ensures [cache-ok] cacheOK(f)
+//@   modifies f.extentsCache[:]
